@@ -40,6 +40,18 @@ def exWriteQueryFixed (env : Env) (isInsert : Bool) (tgt : List String) (cols : 
   | .ok h => .ok (g.compose h)
   | .error e => .error e
 
+/-- the UNREPAIRED extractor (the tree before fix D8), kept for the deviation witness `Props.C13.dev_D8`: the explicit list is
+    added on top of the provider's columns, nothing is removed -/
+def exWriteQueryUnrepaired (env : Env) (isInsert : Bool) (tgt : List String) (cols : Option (List String)) (q : Query) :
+    Except Err LGraph :=
+  let t := mkTable env tgt none
+  let g := addWriteO Graph.empty t
+  let g := if isInsert && env.prov.truthy then addWriteColumns g (provColumns env.prov t.d t.printed) else g
+  let g := match cols with | some cs => addWriteColumns g (cs.map listColumn) | none => g
+  match exQuery env (ctxOf g) q with
+  | .ok h => .ok (g.compose h)
+  | .error e => .error e
+
 /-- `Walk.analyze` with the repaired create/insert extractor -/
 def analyzeFixed (env : Env) (silent : Bool) (s : Stmt) : Except Err LGraph :=
   match s with
